@@ -15,6 +15,7 @@ Sub-oracles (K = 10; rtol, atol are the tolerances given to the solver)
   direct         solveHydroShock(vw, v+, T+) on triples drawn independently of any matching equals the
                  reference Tn' within K rtol kappa (kappa = 1 + |d ln Tn'/d ln xi_w| + |d ln Tn'/d ln T+|
                  measured by the reference) + K atol / Tn
+  kappa-history  efficiencyFactor(vw) is repeated bit-for-bit (1e-12) on the same object after a wall of the other flow type
   kappa          efficiencyFactor(vw) at rtol = 1e-8 equals the kinetic-energy integral of the reference
                  profile started from the returned wall states (shock wave in front; rarefaction wave
                  behind hybrids and detonations): relative difference <= KAPPA_REL = 5e-3, and the difference does
@@ -127,8 +128,12 @@ def st_kappa(draw):
     solver = "general"
     if spec["family"] in ("bag", "template") and draw(st.integers(0, 3)) == 0:
         solver = "template"
-    return {"kind": "kappa", "eos": spec, "solver": solver, "vclass": draw(st.sampled_from(KAPPA_VCLASSES)),
+    case = {"kind": "kappa", "eos": spec, "solver": solver, "vclass": draw(st.sampled_from(KAPPA_VCLASSES)),
             "u": draw(st.floats(0.0, 1.0))}
+    if draw(st.booleans()):
+        # call history on the same object: another wall velocity (of the other flow type) in between
+        case["hist_u"] = draw(st.floats(0.0, 1.0))
+    return case
 
 
 def strategy(tier):
@@ -444,6 +449,28 @@ def check_kappa(case, v: Verdict):
             v.info["error"] = str(exc)[:200]
             return
         out[rtol] = (kap, [float(x) for x in res], eos, meta, hyd)
+        if rtol == KAPPA_RTOL and case.get("hist_u") is not None:
+            # the efficiency factor is a function of the wall velocity, not of what the object computed before:
+            # evaluate a wall of the other flow type (deflagration/hybrid <-> detonation) and then vw again
+            if vw < vJ:
+                vother = vJ + 1e-3 + float(case["hist_u"]) * max(0.0, 0.99 - vJ - 1e-3)
+            else:
+                lo_ = max(vmin, 0.05)
+                vother = lo_ + float(case["hist_u"]) * max(0.0, min(cb, vJ) - 1e-3 - lo_)
+            try:
+                kother = float(hyd.efficiencyFactor(vother))
+                kagain = float(hyd.efficiencyFactor(vw))
+            except WallGoError:
+                v.label("kappa-history:WallGoError")
+            else:
+                v.checked("kappa-history")
+                v.label("kappa-history")
+                v.info.update(kappa_other=kother, v_other=vother)
+                if not (kagain == kap or abs(kagain - kap) <= 1e-12 * abs(kap)):
+                    v.fail("kappa-history", f"{solver}/{fam}",
+                           f"efficiencyFactor({vw:.8g}) = {kap!r} on a new object but {kagain!r} on the same object after "
+                           f"efficiencyFactor({vother:.8g}) = {kother!r}", vw=vw, v_other=vother)
+                    return
     kap, (vp, vm, Tp, Tm), eos, meta, hyd = out[KAPPA_RTOL]
     Tn = meta["Tn"]
     if not (0.0 < vp < 1.0 and 0.0 < vm < 1.0 and Tp > 0.0 and Tm > 0.0):
